@@ -554,6 +554,40 @@ func cliMatrix() []cliCase {
 				note: fmt.Sprintf("20 lines, line %d is longer than the scanner's buffer", bad)})
 		}
 	}
+	// values beyond the schema preview that do not fit the inferred type, at every position inside a list (first, middle,
+	// last, nested) and as a scalar; and a NULL / a String reaching a runtime type assertion that excludes it
+	for _, badList := range []string{"[1, \"oops\", 3]", "[\"oops\", 2, 3]", "[1, 2, \"oops\"]", "[1, [2], 3]", "[null, 2, 3]", "[1, 2.5, {\"x\": 1}]"} {
+		var b, g strings.Builder
+		for i := 0; i < 130; i++ {
+			l := "[1, 2, 3]"
+			g.WriteString(fmt.Sprintf("{\"id\": %d, \"tags\": %s, \"nest\": [[1], [2, 3]]}\n", i, l))
+			if i == 120 {
+				b.WriteString(fmt.Sprintf("{\"id\": %d, \"tags\": %s, \"nest\": [[1], [2, 3]]}\n", i, badList))
+			} else if i == 125 {
+				b.WriteString(fmt.Sprintf("{\"id\": %d, \"tags\": [1, 2, 3], \"nest\": [[1], %s]}\n", i, badList))
+			} else {
+				b.WriteString(fmt.Sprintf("{\"id\": %d, \"tags\": %s, \"nest\": [[1], [2, 3]]}\n", i, l))
+			}
+		}
+		for _, q := range []string{"SELECT t.id, t.tags FROM l.json t", "SELECT DISTINCT t.tags FROM l.json t", "SELECT COUNT(t.tags) AS c FROM l.json t", "SELECT t.nest FROM l.json t", "SELECT * FROM l.json t"} {
+			out = append(out, cliCase{name: "matrix_json_list_element_misfit", query: q, format: next(), mustFail: true,
+				files: map[string]string{"l.json": b.String()}, good: map[string]string{"l.json": g.String()},
+				note: "rows 120 / 125 (beyond the 100-row preview) hold the list " + badList + " where a list of numbers was inferred"})
+		}
+	}
+	{
+		// n is NULL | Int | String in the schema: SUM(n) / n + 1 get a runtime type assertion to Int
+		csv := "id,n\n1,1\n2,x\n3,\n4,5\n5,7\n"
+		good := "id,n\n1,1\n2,x\n3,4\n4,5\n5,7\n"
+		for _, q := range []string{"SELECT SUM(t.n) AS s FROM n.csv t WHERE t.id != 2", "SELECT AVG(t.n) AS s FROM n.csv t WHERE t.id != 2", "SELECT t.id, MAX(t.n) AS s FROM n.csv t WHERE t.id != 2 GROUP BY t.id",
+			"SELECT DISTINCT q.s FROM (SELECT t.id / 10 AS g, SUM(t.n) AS s FROM n.csv t WHERE t.id != 2 GROUP BY t.id / 10) q ORDER BY q.s"} {
+			out = append(out, cliCase{name: "matrix_null_reaches_type_assertion", query: q, format: next(), mustFail: true,
+				files: map[string]string{"n.csv": csv}, good: map[string]string{"n.csv": good},
+				note: "n is NULL | Int | String; the String row is filtered out, the NULL of row 3 reaches the assertion to Int"})
+		}
+		out = append(out, cliCase{name: "matrix_string_reaches_type_assertion", query: "SELECT SUM(t.n) AS s FROM n.csv t", calib: "SELECT COUNT(t.n) AS s FROM n.csv t", format: next(), mustFail: true,
+			files: map[string]string{"n.csv": csv}, note: "the String of row 2 reaches the assertion to Int"})
+	}
 	// unreadable input: a directory named like a lines table (open succeeds, read fails)
 	for _, q := range []string{"SELECT * FROM dir.lines t", "SELECT COUNT(*) FROM dir.lines t", "SELECT t.number FROM dir.lines t", "SELECT DISTINCT t.text FROM dir.lines t"} {
 		out = append(out, cliCase{name: "matrix_unreadable_input", query: q, calib: strings.ReplaceAll(q, "dir.lines", "ok.lines"), format: next(), mustFail: true,
